@@ -272,7 +272,8 @@ def ref_loop_block(kind, body_stmts, after_stmts, elems):
 
 def loops(present: bool, s: str, r: str, a0: bool, a1: bool, a2: bool, b0: bool, b1: bool, b2: bool) -> bool:
     """
-    `while c: A / B` (partition 0), `for i in xs: A / B` (partition 1) and `def f(): A / f() / B` is outside this bound.
+    `while c: A / B` (partition 0), `for i in xs: A / B` (partition 1; 2 and 3: xs assigned by the program, empty on one
+    branch only) and `def f(): A / f() / B` is outside this bound.
     Every read of x that is unassigned on some execution with 0, 1 or 2 iterations is reported at its line with one of
     the initialization labels.
 
@@ -288,11 +289,14 @@ def loops(present: bool, s: str, r: str, a0: bool, a1: bool, a2: bool, b0: bool,
     if excluded("C09.loops", kind=kind, a=a, b=b, present=present, s=s, r=r):
         return True
     head = "while c:" if kind == 0 else "for i in xs:"
-    code = "%s\n%s\n%s" % (head, _ind(ATOMS[a]), ATOMS[b])
+    # kind 2 / 3: the iterated list is assigned by the program itself, empty on one path only (so the loop may well run)
+    prefix = {2: "if c:\n    xs = []\nelse:\n    xs = [1, 2]\n", 3: "xs = [1, 2]\nif c:\n    xs = []\n"}.get(kind, "")
+    code = "%s%s\n%s\n%s" % (prefix, head, _ind(ATOMS[a]), ATOMS[b])
     tree = ast.parse(code)
     t = _tifa(code)
     from pedal.types.new_types import ListType
-    t.name_map[0]["0/xs"] = State("xs", [], ListType(False, IntType()), "store", None, read="yes", set="yes", over="no")
+    if not prefix:
+        t.name_map[0]["0/xs"] = State("xs", [], ListType(False, IntType()), "store", None, read="yes", set="yes", over="no")
     if present:
         t.name_map[0]["0/x"] = State("x", [], IntType(), "store", None, read=r, set=s, over="no")
     t.node_chain.append(tree)
@@ -303,8 +307,9 @@ def loops(present: bool, s: str, r: str, a0: bool, a1: bool, a2: bool, b0: bool,
         for fb in t.analysis.issues.get(label, []):
             if fb.fields.get("name") == "x":
                 reported.add(fb.location.line)
-    loop = tree.body[0]
-    need = ref_loop_block(kind, loop.body, tree.body[1:], gamma(present, s, r))
+    loop_at = [i for i, st in enumerate(tree.body) if isinstance(st, (ast.For, ast.While))][0]
+    loop = tree.body[loop_at]
+    need = ref_loop_block(kind, loop.body, tree.body[loop_at + 1:], gamma(present, s, r))
     for (line, col), unassigned in need.items():
         if unassigned and line not in reported:
             return False
